@@ -74,7 +74,7 @@ func init() {
 func genCases(seed int64, tier string) []core.Case {
 	ncases, per := 96, 16
 	if tier == "thorough" {
-		ncases, per = 800, 25
+		ncases, per = 2400, 25
 	}
 	rng := rand.New(rand.NewSource(seed*32452843 + 19))
 	off := rng.Intn(1 << 20)
